@@ -30,6 +30,7 @@ type Anno struct {
 	RefName string `json:"ref_name"`
 	Ref     string `json:"ref"` // ungapped reference, upper case
 	Feats   []Feat `json:"feats"`
+	Unsorted bool  `json:"features_not_in_ascending_order,omitempty"`
 }
 
 // codingPositions: 1-based reference positions in translation order, after codon_start trimming.
@@ -456,6 +457,13 @@ func genAnno(t *rapid.T, o annoGenOpts) Anno {
 			}
 		}
 	}
+	// file order: usually ascending, but neither format mandates it (hand-curated GenBank tables list mature peptides after
+	// the ORFs, merged annotations append new features at the end) - one annotation in five lists its features in another order
+	if len(feats) > 1 && rapid.IntRange(0, 4).Draw(t, "fileOrder") == 0 {
+		perm := rapid.Permutation(feats).Draw(t, "featOrder")
+		feats = perm
+		a.Unsorted = !sort.SliceIsSorted(feats, func(i, j int) bool { return feats[i].minPos() < feats[j].minPos() })
+	}
 	a.Ref = string(ref)
 	a.Feats = feats
 	return a
@@ -463,6 +471,7 @@ func genAnno(t *rapid.T, o annoGenOpts) Anno {
 
 func labelAnno(a Anno, o *Obs) {
 	for i, f := range a.Feats {
+		o.LabelIf(a.Unsorted, "feat:file-order-not-ascending")
 		o.LabelIf(f.Strand < 0, "feat:reverse")
 		o.LabelIf(len(f.Segs) > 1, "feat:joined")
 		o.LabelIf(f.Strand < 0 && len(f.Segs) > 1, "feat:reverse-joined")
